@@ -16,26 +16,32 @@ func (s *vSt) Load(ctx context.Context, name string) ([]byte, error)            
 func (s *vSt) Store(ctx context.Context, name string, data []byte) error            { return nil }
 func (s *vSt) Delete(ctx context.Context, name string) error                        { return nil }
 
-// VerifC17GetGlobal: a caller asking for the global storage before it is set receives it once
+// VerifC17GetGlobal: callers (two of them) asking for the global storage before it is set receives it once
 // it is set; in both orders of set and get, and under every interleaving of the two.
 func VerifC17GetGlobal() {
 	st := &vSt{id: 7}
-	var got simpleblob.Interface
+	var got, got2 simpleblob.Interface
 	order := zz.Choice("order", 3)
 	switch order {
 	case 0: // set first
 		SetGlobal(st)
 		zz.Go("getter", func() { got = GetGlobal() })
-	case 1: // get first: the getter blocks in wait() until the setter comes
+	case 1: // get first: both getters block in wait() until the setter comes
 		zz.Go("getter", func() { got = GetGlobal() })
+		zz.Go("getter2", func() { got2 = GetGlobal() })
 		zz.Settle()
 		zz.Go("setter", func() { SetGlobal(st) })
-	default: // both concurrently, any interleaving
+	default: // all concurrently, any interleaving
 		zz.Go("getter", func() { got = GetGlobal() })
+		zz.Go("getter2", func() { got2 = GetGlobal() })
 		zz.Go("setter", func() { SetGlobal(st) })
 	}
 	zz.WaitThreads("C17/getglobal/returns-once-set")
 	zz.Assert(got == simpleblob.Interface(st), "C17/getglobal/returns-the-handle-that-was-set")
+	if order != 0 {
+		// every waiter is released, not only the first
+		zz.Assert(got2 == simpleblob.Interface(st), "C17/getglobal/every-waiter-gets-the-handle")
+	}
 	zz.Assert(IsReady(), "C17/getglobal/ready-after-set")
 	zz.Reach("C17/getglobal/done")
 }
